@@ -12,7 +12,7 @@ import (
 func init() {
 	register(Property{
 		ID: "C11",
-		Explanation: "Decided statically on the structural type printer (anchor: the switch over Kind() in (*Dumper).TypeLit) and the ID dispatch: R1 every constructor of the stated grammar (pointer, chan, struct, array, slice, map, interface) has an arm; basic kinds reach the default arm, which prints the type's own String(); the struct arm emits, per field in index order, the name unless embedded, the recursive literal and the tag when non-empty; every arm recurses through the printer for its element/key types; R2 lossy-arm rule - the interface arm, which has more than one inhabitant in the domain (any, error), must depend on the type beyond its kind (a constant result collapses error into any); R3 named types are rendered by the namer first (PkgPath() != \"\" => Name(Ref(PkgPath, Name))), so imports are registered and local types unqualified (C03); R4 snippet.ID dispatches string / TypeName / reflect.Type / types.Type / *types.Alias, the *types.Alias arm precedes the types.Type arm that would shadow it, anything else panics, and type arguments go to the type-literal printer; R5 generic receiver names get their type-parameter list in the namer. R6 every name the namer hands out went through the argument rewriter (no return of the raw Name()/String() except the empty-name fallback); R7 the printers keep no mutable state on the Dumper (they are recursive; also through &d.field). NOT decided: types.Identical(rendered, original) for all type expressions (needs re-type-checking of the generated text).",
+		Explanation: "Decided statically on the structural type printer (anchor: the switch over Kind() in (*Dumper).TypeLit) and the ID dispatch: R1 every constructor of the stated grammar (pointer, chan, struct, array, slice, map, interface) has an arm; basic kinds reach the default arm, which prints the type's own String(); the struct arm emits, per field in index order, the name unless embedded, the recursive literal and the tag when non-empty; every arm recurses through the printer for its element/key types; R2 lossy-arm rule - the interface arm, which has more than one inhabitant in the domain (any, error), must depend on the type beyond its kind (a constant result collapses error into any); R3 named types are rendered by the namer first (PkgPath() != \"\" => Name(Ref(PkgPath, Name))), so imports are registered and local types unqualified (C03); R4 snippet.ID dispatches string / TypeName / reflect.Type / types.Type / *types.Alias, the *types.Alias arm precedes the types.Type arm that would shadow it, anything else panics, and type arguments go to the type-literal printer; R5 generic receiver names get their type-parameter list in the namer. R6 every name the namer hands out went through the argument rewriter (no return of the raw Name()/String() except the empty-name fallback); R7 the printers keep no mutable state on the Dumper (they are recursive; also through &d.field). R8 nothing reachable from snippet.ID, TypeLit or the namer writes package-level state (a memoised parse would hand the namer, which rewrites the parsed reference in place, an already rewritten tree). NOT decided: types.Identical(rendered, original) for all type expressions (needs re-type-checking of the generated text).",
 		Assumptions: append([]string{"github.com/octohelm/x/types presents reflect and go/types types through one Kind()/Elem()/Field() view (third-party, trusted)"}, commonAssumptions...),
 		Run:         runC11,
 	})
@@ -351,6 +351,7 @@ func runC11(p *core.Program, r *core.Report) {
 
 	c11R6(p, r)
 	c11R7(p, r)
+	c11R8(p, r)
 	// R5 generic receiver names
 	r.Floor("R5", 1)
 	nf := p.FuncByName("pkg/namer", "(*rawNamer).Name")
@@ -540,5 +541,55 @@ func c14R3forFuncRule(p *core.Program, r *core.Report, f *core.Func, rule string
 				r.OK(rule, f, o.Construct, token.NoPos, o.How)
 			}
 		}
+	}
+}
+
+// c11R8: rendering a type is a function of that type alone. The namer parses the
+// reference's name into a tree and rewrites that tree in place (package paths
+// become import names); nothing on the way from snippet.ID to the text may be
+// remembered across calls in package-level state - a memoised parse hands the
+// next caller a tree that is already rewritten (an import name treated as a path).
+func c11R8(p *core.Program, r *core.Report) {
+	const rule = "R8"
+	r.Floor(rule, 1)
+	var roots []*core.Func
+	for _, n := range [][2]string{{"pkg/namer", "(*rawNamer).Name"}, {"pkg/gengo/internal", "(*Dumper).TypeLit"}, {"pkg/gengo/snippet", "ID"}} {
+		if f := p.FuncByName(n[0], n[1]); f != nil {
+			roots = append(roots, f)
+		} else {
+			r.Anchor(rule, n[0]+"."+n[1])
+		}
+	}
+	io := initOnly(p)
+	n, bad := 0, 0
+	for f := range reachableFrom(p, roots...) {
+		root := f.Root()
+		if isInitFunc(root) || (root.Obj() != nil && io[root.Obj()]) {
+			continue
+		}
+		n++
+		info := f.Info()
+		for _, w := range globalWrites(f) {
+			bad++
+			r.Bad(rule, f, "write to package-level state on the type-rendering path: "+core.ExprStr(w), w.Pos(), "the text rendered for a type depends on what was rendered before")
+		}
+		ast.Inspect(f.Body, func(nd ast.Node) bool {
+			if lit, ok := nd.(*ast.FuncLit); ok && lit != f.Lit {
+				return false
+			}
+			c, ok := nd.(*ast.CallExpr)
+			if !ok || !mutatingSyncMethods[core.CalleeName(info, c)] {
+				return true
+			}
+			if v := isPkgLevelVar(info, recvOf(c)); v != nil {
+				bad++
+				r.Bad(rule, f, "package-level cache "+v.Name()+" is filled on the type-rendering path through "+shortName(core.CalleeName(info, c)), c.Pos(),
+					"a value computed while rendering one type is handed to the next rendering: the namer rewrites the parsed reference in place, so a cached parse tree comes back already rewritten (import names are taken for package paths and imported again under a new name)")
+			}
+			return true
+		})
+	}
+	if bad == 0 {
+		r.OK(rule, nil, "nothing on the type-rendering path is remembered in package-level state", token.NoPos, itoa(int64(n))+" functions reachable from ID / TypeLit / the namer scanned")
 	}
 }
